@@ -343,3 +343,37 @@ def loop_visits_every_element(g, f, loop, visit_pts, allowed_exit=None):
                 continue
             return 'the loop can be left before the range is exhausted (%s at line %s): the remaining elements are never visited' % (n['k'], pts[0].line if pts else '?')
     return None
+
+
+def callbacks_never_stop(ck, prog, rule, hosts, callee_suffixes=('ForEachKeyValue',), exempt=()):
+    """Every lambda that a host function hands to an iteration API (ForEachKeyValue, ...) to *copy* caller data returns true on
+    every exit: returning false stops the iteration and silently drops the remaining entries. `hosts` are Func objects;
+    `exempt` names host functions whose callback legitimately stops early (searches / comparisons)."""
+    cnt = 0
+    for f in hosts:
+        if f.name in exempt:
+            continue
+        for n in f.nodes:
+            if n['k'] != 'call' or not any(strip_targs(n.get('c', '')).endswith(sfx) for sfx in callee_suffixes):
+                continue
+            lam = None
+            for a in n.get('args', []):
+                if a is None or a < 0:
+                    continue
+                for j in f.subtree(a):
+                    if f.nodes[j]['k'] == 'lambda' and f.nodes[j].get('fn') in prog.funcs:
+                        lam = prog.funcs[f.nodes[j]['fn']]
+            if lam is None:
+                continue
+            # a comparison / search whose result is used is not a copy
+            cnt += 1
+            rets = [strip_casts(lam, r['e']) if r.get('e') is not None and r['e'] >= 0 else None for r in lam.nodes if r['k'] == 'return']
+            bad = [r for r in rets if r is None or not (r['k'] == 'lit' and r.get('v') == 1)]
+            host = f
+            while host.d.get('lambda') and host.d.get('parent') in prog.funcs:
+                host = prog.funcs[host.d['parent']]
+            site = 'copy-callback-never-stops@%s#%d' % (host.name, sum(1 for m in f.nodes[:n['i']] if m['k'] == 'call' and any(strip_targs(m.get('c', '')).endswith(s) for s in callee_suffixes)))
+            ck.verdict(not bad, rule, lam, site, bad[0] if bad and bad[0] is not None else n,
+                       'the callback returns true on all %d exits' % len(rets) if not bad else
+                       'a callback that copies the caller\'s entries can return something other than true: the iteration stops there and every later attribute / link is silently dropped')
+    return cnt
